@@ -145,9 +145,11 @@ def is_transparent(name):
 
 
 class Prov:
-    def __init__(self, fn: Fn, F=None):
+    def __init__(self, fn: Fn, F=None, cut_loops=False):
         self.fn = fn
         self.F = F
+        self.cut_loops = cut_loops   # loop-carried values become symbols `name@in` (one-iteration transfer functions)
+        self._reach_cache = {}
         self.defs = {}      # local -> list of (block, idx, kind) ; kind in full/partial/call/mutborrow
         self._index()
         self._cache = {}
@@ -294,6 +296,14 @@ class Prov:
             return E('local', fn.local_name(l))
         rs = self.reaching(l, block, idx)
         alts = []
+        if self.cut_loops and len(rs) > 1:
+            # loop-carried: some reaching definition lies downstream of this use (comes around a back edge)
+            if block not in self._reach_cache:
+                self._reach_cache[block] = fn.reachable(block)
+            down = self._reach_cache[block]
+            for r in rs:
+                if r is not None and r[0] in down and (r[0] != block or (r[1] != -1 and r[1] >= idx) or r[1] == -1):
+                    return E('local', fn.local_name(l) + '@in', ty=fn.local_ty(l))
         for r in rs:
             if r is None:
                 if 1 <= l <= fn.arg_count:
